@@ -1986,7 +1986,10 @@ def tag_fn(ctx: "Wtp", token: str) -> None:
     if m is not None:
         # This is a start tag
         name = m.group(1).lower()
-        attrs = m.group(2)
+        # The token text has not been through the string merging that resolves
+        # placeholder characters (e.g. <nowiki/> inside an attribute value);
+        # resolve them here, as the attributes of table cells get them
+        attrs = ctx._finalize_expand(m.group(2))
         also_end = m.group(0).endswith("/>")
 
         # Some templates have markers like <1> in their arguments.  Only parse
